@@ -190,7 +190,7 @@ pub fn lock_events_json(evs: Vec<verif::locks::LockEvent>, dedupe: bool) -> Vec<
         let held: Vec<Value> = e.held.iter().map(|h| json!({"c":h.0,"id":idof(h.1, &mut ids),"m":h.2.to_string()})).collect();
         let v = json!({"k":e.kind,"t":if dedupe { "par".to_string() } else { e.thread.clone() },"c":e.lock.0,"id":idof(e.lock.1, &mut ids),"m":e.lock.2.to_string(),"held":held});
         if dedupe {
-            if e.kind != "want" || !seen.insert(v.to_string()) {
+            if (e.kind != "want" && e.kind != "got") || !seen.insert(v.to_string()) {
                 continue;
             }
         }
